@@ -459,10 +459,7 @@ def run(cx):
     for m in (em, pm, hm):
         cx.consulted(m)
     cx.explanation = (
-        "alignment/style tables of host, parser and emitter agree (parser resolvers evaluated over case variants); every store "
-        "to the host buffer is width-preserving and row-validated; every lcd.print in the C++ helper templates is proven truncated "
-        "to the remaining width by abstract interpretation of the typed AST; backlight commands are interpreted abstractly with a "
-        "state flag; glyph masking and the progress formula/clamps are checked on both sides; cell equality for all texts is not decided"
+        'alignment/style tables of host, parser and emitter agree (resolvers evaluated over spellings); host buffer shape by evaluation over geometries; every lcd.print in the helper templates bounded by abstract interpretation, with cell-model evaluation when the symbolic bound is lost; cells left by the firmware helper and by emitted LCDWrite/LCDLine statements equal the host buffer on grids; progress bars by whole-function evaluation of both sides; backlight typestate; glyph and brightness laws by evaluation. Cell equality for all texts and geometries is not decided.'
     )
     cls, fields = pe.ir_classes()
 
